@@ -23,6 +23,7 @@ func factsMore(x *extractor) {
 	x.factsVerify()
 	x.factsProto()
 	x.factsWork()
+	x.factsStatus()
 }
 
 const netceptorGo = "pkg/netceptor/netceptor.go"
@@ -1376,4 +1377,155 @@ func (x *extractor) factsWork() {
 	x.set("sig_unix", unix)
 	x.set("sig_arms", arms)
 	x.set("sig_verify", verify)
+}
+
+// ---------------------------------------------------------------- C14: status file protocol
+
+// statusEvents renders the order of the file-protocol events in a function body.
+func (x *extractor) statusEvents(fd *ast.FuncDecl) string {
+	if fd == nil || fd.Body == nil {
+		return "unknown"
+	}
+	var ev []string
+	deferred := map[ast.Node]bool{}
+	guarded := map[ast.Node]string{}
+	ast.Inspect(fd.Body, func(n ast.Node) bool {
+		switch v := n.(type) {
+		case *ast.DeferStmt:
+			ast.Inspect(v, func(m ast.Node) bool {
+				if c, ok := m.(*ast.CallExpr); ok {
+					deferred[c] = true
+				}
+				return true
+			})
+		case *ast.IfStmt:
+			cond := x.str(v.Cond)
+			if cond != "err != nil" && cond != "serr != nil" && cond != "lerr != nil" {
+				ast.Inspect(v.Body, func(m ast.Node) bool {
+					if c, ok := m.(*ast.CallExpr); ok {
+						guarded[c] = cond
+					}
+					if r, ok := m.(*ast.ReturnStmt); ok {
+						guarded[r] = cond
+					}
+					return true
+				})
+			}
+		case *ast.CallExpr:
+			f := x.str(v.Fun)
+			name := ""
+			switch {
+			case strings.HasSuffix(f, ".lockStatusFile"):
+				name = "lock"
+			case strings.HasSuffix(f, ".unlockStatusFile"):
+				name = "unlock"
+			case f == "os.OpenFile" && len(v.Args) == 3:
+				name = "open(" + strings.ReplaceAll(x.str(v.Args[1]), " ", "") + ")"
+			case f == "os.Open":
+				name = "open(RO)"
+			case f == "lockedfile.OpenFile" && len(v.Args) == 3:
+				name = "lockedfile.OpenFile(" + strings.ReplaceAll(x.str(v.Args[1]), " ", "") + ")"
+			case strings.HasSuffix(f, ".loadFromFile"):
+				name = "load"
+			case strings.HasSuffix(f, ".saveToFile"):
+				name = "save"
+			case f == "statusFunc":
+				name = "apply"
+			case strings.HasSuffix(f, ".Seek") && len(v.Args) == 2:
+				name = "seek(" + x.str(v.Args[0]) + "," + x.str(v.Args[1]) + ")"
+			case strings.HasSuffix(f, ".Truncate") && len(v.Args) == 1:
+				name = "truncate(" + x.str(v.Args[0]) + ")"
+			case strings.HasSuffix(f, ".UpdateFullStatus"), strings.HasSuffix(f, ".UpdateBasicStatus"),
+				strings.HasSuffix(f, ".status.Save"), strings.HasSuffix(f, ".status.Load"):
+				args := []string{}
+				for _, a := range v.Args {
+					if _, isFn := a.(*ast.FuncLit); isFn {
+						args = append(args, "func")
+					} else {
+						args = append(args, x.str(a))
+					}
+				}
+				name = f + "(" + strings.Join(args, ",") + ")"
+			case strings.HasSuffix(f, "statusLock.Lock"), strings.HasSuffix(f, "statusLock.Unlock"),
+				strings.HasSuffix(f, "statusLock.RLock"), strings.HasSuffix(f, "statusLock.RUnlock"):
+				name = f[strings.LastIndex(f, ".")+1:]
+			}
+			if name != "" {
+				if deferred[v] {
+					name = "defer-" + name
+				}
+				if g, ok := guarded[v]; ok {
+					name = g + ":" + name
+				}
+				ev = append(ev, name)
+			}
+		case *ast.ReturnStmt:
+			// returns other than the propagation of an error just obtained
+			s := x.str(v)
+			if s != "return err" && s != "return nil, err" && s != "return" {
+				if g, ok := guarded[v]; ok {
+					s = g + ":" + s
+				}
+				if len(s) > 60 {
+					s = s[:60]
+				}
+				ev = append(ev, s)
+			}
+		}
+		return true
+	})
+	return strings.Join(ev, ";")
+}
+
+func (x *extractor) factsStatus() {
+	const wb, su = "pkg/workceptor/workunitbase.go", "pkg/workceptor/stdio_utils.go"
+	x.set("st_lock", x.statusEvents(x.fn(wb, "StatusFileData", "lockStatusFile")))
+	lockName := "unknown"
+	if fd := x.fn(wb, "StatusFileData", "lockStatusFile"); fd != nil {
+		if rhs := assignRHS(fd, "lockFileName"); rhs != nil {
+			lockName = x.str(rhs)
+		}
+	}
+	x.set("st_lock_name", lockName)
+	unlock := "unknown"
+	if fd := x.fn(wb, "StatusFileData", "unlockStatusFile"); fd != nil {
+		ast.Inspect(fd.Body, func(n ast.Node) bool {
+			if c, ok := n.(*ast.CallExpr); ok && strings.HasSuffix(x.str(c.Fun), ".Close") {
+				unlock = x.str(c)
+			}
+			return true
+		})
+	}
+	x.set("st_unlock", unlock)
+	x.set("st_save", x.statusEvents(x.fn(wb, "StatusFileData", "Save")))
+	x.set("st_load", x.statusEvents(x.fn(wb, "StatusFileData", "Load")))
+	x.set("st_update", x.statusEvents(x.fn(wb, "StatusFileData", "UpdateFullStatus")))
+	basic, basicCb := x.statusEvents(x.fn(wb, "StatusFileData", "UpdateBasicStatus")), "unknown"
+	if fd := x.fn(wb, "StatusFileData", "UpdateBasicStatus"); fd != nil {
+		basic = strconv.Itoa(len(fd.Body.List)) + ":" + basic
+		ast.Inspect(fd.Body, func(n ast.Node) bool {
+			if fl, ok := n.(*ast.FuncLit); ok {
+				var parts []string
+				for _, s := range fl.Body.List {
+					parts = append(parts, x.str(s))
+				}
+				basicCb = strings.Join(parts, ";")
+			}
+			return true
+		})
+	}
+	x.set("st_basic", basic)
+	x.set("st_basic_cb", basicCb)
+	x.set("st_stdout", x.statusEvents(x.fn(su, "", "saveStdoutSize")))
+	var w []string
+	for _, m := range []string{"Save", "Load", "UpdateFullStatus", "UpdateBasicStatus"} {
+		w = append(w, m+"="+x.statusEvents(x.fn(wb, "BaseWorkUnit", m)))
+	}
+	x.set("st_bwu", w)
+	// the JSON written is one Marshal of the whole record + newline, read back with ReadAll + Unmarshal
+	io := "unknown"
+	if a, b := x.fn(wb, "StatusFileData", "saveToFile"), x.fn(wb, "StatusFileData", "loadFromFile"); a != nil && b != nil {
+		io = fmt.Sprint(x.callPos(a, "json.Marshal") != 0, x.callPos(a, ".Write") != 0, x.callPos(b, "io.ReadAll") != 0, x.callPos(b, "json.Unmarshal") != 0)
+	}
+	x.set("st_io", io)
 }
